@@ -226,3 +226,246 @@ def enclosing(node: ast.AST, parents: Dict[ast.AST, ast.AST], kinds) -> Optional
         if isinstance(n, kinds):
             return n
     return None
+
+
+# ----------------------------------------------------------------------------- inlined, condition-annotated event traces
+class Event:
+    """One call / assignment / return / raise of a function, in source order, with everything needed to reason about
+    it independently of how the code is laid out: the conditions under which it runs (including those implied by
+    earlier `if c: return/continue/raise` exits), the try/with blocks protecting it, and - when it comes from a helper
+    that was inlined at its call site - the parameter bindings."""
+    __slots__ = ("kind", "node", "conds", "protected", "subst", "fn", "depth", "target", "value", "loops")
+
+    def __init__(self, kind, node, conds, protected, subst, fn, depth, target=None, value=None, loops=()):
+        self.kind, self.node, self.conds, self.protected = kind, node, list(conds), list(protected)
+        self.subst, self.fn, self.depth, self.target, self.value, self.loops = dict(subst), fn, depth, target, value, tuple(loops)
+
+    def text(self, node: Optional[ast.AST] = None) -> str:
+        """source text of node (default: the event's node) with inlined parameters replaced by their arguments"""
+        n = self.node if node is None else node
+        return unparse_subst(n, self.subst)
+
+    def cond_texts(self) -> List[str]:
+        out = []
+        for test, pol, subst in self.conds:
+            t = unparse_subst(test, subst)
+            out.append(t if pol else f"not ({t})")
+        return out
+
+    def __repr__(self):
+        return f"<{self.kind} {self.text()[:60]} if {self.cond_texts()}>"
+
+
+class _Subst(ast.NodeTransformer):
+    def __init__(self, m):
+        self.m = m
+
+    def visit_Name(self, n):
+        if n.id in self.m and isinstance(n.ctx, ast.Load):
+            return self.m[n.id]
+        return n
+
+
+def unparse_subst(node: ast.AST, subst: Dict[str, ast.AST]) -> str:
+    if not subst:
+        return ast.unparse(node)
+    import copy
+    return ast.unparse(_Subst(subst).visit(copy.deepcopy(node)))
+
+
+def _swallowing_handlers(t: ast.Try) -> List[str]:
+    out = []
+    for h in t.handlers:
+        if not any(isinstance(x, ast.Raise) for x in ast.walk(h)):
+            out += handler_types(h)
+    return out
+
+
+def trace(fn: ast.AST, resolve=None, max_depth: int = 2) -> List[Event]:
+    """Linearise `fn` into events.  `resolve(call) -> FunctionDef | None` says which calls to inline (local closures
+    are always inlined)."""
+    events: List[Event] = []
+
+    def locals_of(f):
+        return {n.name: n for st in f.body for n in ast.walk(st) if isinstance(n, (ast.FunctionDef, ast.AsyncFunctionDef))}
+
+    counter = [0]
+
+    def run(f, conds, protected, subst, depth, stack, ret_target, loops):
+        closures = locals_of(f)
+        counter[0] += 1
+        inst = counter[0]      # one dynamic instance per inlining: the same `with` block inlined twice is two blocks
+
+        def callee_of(c: ast.Call):
+            if isinstance(c.func, ast.Name) and c.func.id in closures:
+                return closures[c.func.id], False
+            if resolve is not None:
+                r = resolve(c)
+                if r is not None:
+                    return r, isinstance(c.func, ast.Attribute)
+            return None, False
+
+        def expr_events(e: ast.AST, conds, protected, target=None):
+            # calls inside the expression, innermost first, in source order
+            for c in sorted([x for x in ast.walk(e) if isinstance(x, ast.Call)], key=lambda x: (x.lineno, x.col_offset)):
+                d, is_method = callee_of(c)
+                if d is not None and depth < max_depth and d not in stack:
+                    params = [a.arg for a in d.args.posonlyargs + d.args.args]
+                    if is_method and params and params[0] in ("self", "cls"):
+                        params = params[1:]
+                    s2 = {}
+                    for i, a in enumerate(c.args):
+                        if i < len(params) and not isinstance(a, ast.Starred):
+                            s2[params[i]] = _Subst(subst).visit(__import__("copy").deepcopy(a)) if subst else a
+                    for k in c.keywords:
+                        if k.arg:
+                            s2[k.arg] = _Subst(subst).visit(__import__("copy").deepcopy(k.value)) if subst else k.value
+                    events.append(Event("inline", c, conds, protected, subst, f, depth))
+                    run(d, conds, protected, s2, depth + 1, stack + [d], target if c is e else None, loops)
+                else:
+                    events.append(Event("call", c, conds, protected, subst, f, depth, loops=loops))
+            for w in ast.walk(e):
+                if isinstance(w, ast.NamedExpr):
+                    events.append(Event("assign", w, conds, protected, subst, f, depth, target=ast.unparse(w.target), value=w.value, loops=loops))
+
+        def block(stmts, conds, protected, loops):
+            conds = list(conds)
+            for st in stmts:
+                if isinstance(st, (ast.FunctionDef, ast.AsyncFunctionDef, ast.ClassDef)):
+                    continue
+                if isinstance(st, ast.If):
+                    expr_events(st.test, conds, protected)
+                    block(st.body, conds + [(st.test, True, subst)], protected, loops)
+                    block(st.orelse, conds + [(st.test, False, subst)], protected, loops)
+                    exits_body = bool(st.body) and isinstance(st.body[-1], (ast.Return, ast.Continue, ast.Raise, ast.Break))
+                    exits_else = bool(st.orelse) and isinstance(st.orelse[-1], (ast.Return, ast.Continue, ast.Raise, ast.Break))
+                    if exits_body and not exits_else:
+                        conds = conds + [(st.test, False, subst)]
+                    elif exits_else and not exits_body:
+                        conds = conds + [(st.test, True, subst)]
+                elif isinstance(st, (ast.For, ast.AsyncFor)):
+                    expr_events(st.iter, conds, protected)
+                    events.append(Event("loop", st, conds, protected, subst, f, depth, target=ast.unparse(st.target), value=st.iter, loops=loops))
+                    block(st.body, conds, protected, loops + (st,))
+                    block(st.orelse, conds, protected, loops)
+                elif isinstance(st, ast.While):
+                    expr_events(st.test, conds, protected)
+                    block(st.body, conds + [(st.test, True, subst)], protected, loops + (st,))
+                    block(st.orelse, conds, protected, loops)
+                elif isinstance(st, (ast.With, ast.AsyncWith)):
+                    prot = list(protected)
+                    for it in st.items:
+                        ce = it.context_expr
+                        if isinstance(ce, ast.Call) and call_name(ce).split(".")[-1] == "suppress":
+                            prot = prot + [("suppress", [ast.unparse(a).split(".")[-1] for a in ce.args], st, inst)]
+                        else:
+                            expr_events(ce, conds, protected)
+                    block(st.body, conds, prot, loops)
+                elif isinstance(st, ast.Try):
+                    sw = _swallowing_handlers(st)
+                    allh = [t for h in st.handlers for t in handler_types(h)]
+                    block(st.body, conds, protected + [("try", allh, st, inst)], loops)
+                    for h in st.handlers:
+                        events.append(Event("handler", h, conds, protected, subst, f, depth, loops=loops))
+                        block(h.body, conds, protected, loops)
+                    block(st.orelse, conds, protected, loops)
+                    block(st.finalbody, conds, protected, loops)
+                elif isinstance(st, ast.Return):
+                    if st.value is not None:
+                        expr_events(st.value, conds, protected, target=ret_target)
+                    if depth > 0 and ret_target is not None and st.value is not None:
+                        events.append(Event("assign", st, conds, protected, subst, f, depth, target=ret_target, value=st.value, loops=loops))
+                    else:
+                        events.append(Event("return", st, conds, protected, subst, f, depth, value=st.value, loops=loops))
+                elif isinstance(st, ast.Raise):
+                    events.append(Event("raise", st, conds, protected, subst, f, depth, value=st.exc, loops=loops))
+                elif isinstance(st, (ast.Assign, ast.AnnAssign, ast.AugAssign)):
+                    val = st.value
+                    tgts = st.targets if isinstance(st, ast.Assign) else [st.target]
+                    tname = ast.unparse(tgts[0]) if tgts else None
+                    if val is not None:
+                        expr_events(val, conds, protected, target=tname)
+                        events.append(Event("assign", st, conds, protected, subst, f, depth, target=tname, value=val, loops=loops))
+                elif isinstance(st, ast.Expr):
+                    expr_events(st.value, conds, protected)
+                elif isinstance(st, (ast.Continue, ast.Break)):
+                    events.append(Event("jump", st, conds, protected, subst, f, depth, loops=loops))
+                else:
+                    for e in ast.iter_child_nodes(st):
+                        if isinstance(e, ast.expr):
+                            expr_events(e, conds, protected)
+
+        block(f.body, conds, protected, loops)
+
+    run(fn, [], [], {}, 0, [fn], None, ())
+    return events
+
+
+def class_method_resolver(py, cls: Optional[str], module: Optional[str] = None):
+    """resolve `self.m(...)` / `cls.m(...)` / `Class.m(...)` to methods of the class (MRO) and bare `f(...)` to
+    functions of the module"""
+    def resolve(c: ast.Call):
+        f = c.func
+        if isinstance(f, ast.Attribute) and isinstance(f.value, ast.Name) and cls is not None:
+            if f.value.id in ("self", "cls") or f.value.id in py.classes:
+                owner = cls if f.value.id in ("self", "cls") else f.value.id
+                r = py.resolve_method(owner, f.attr)
+                if r is not None:
+                    return r[1]
+        if isinstance(f, ast.Name) and module is not None and f"{module}.{f.id}" in py.functions:
+            return py.functions[f"{module}.{f.id}"]
+        return None
+    return resolve
+
+
+def implied_none_tests(ev: Event) -> Dict[str, bool]:
+    """variables the event's path conditions force to be None (True) / not None (False):
+    `x is None`, `not x`, `x is not None`, `x` - with polarity applied"""
+    out: Dict[str, bool] = {}
+
+    def visit(t: ast.AST, pol: bool, subst):
+        if isinstance(t, ast.BoolOp):
+            if isinstance(t.op, ast.And) and pol or isinstance(t.op, ast.Or) and not pol:
+                for v in t.values:
+                    visit(v, pol, subst)
+            return
+        if isinstance(t, ast.UnaryOp) and isinstance(t.op, ast.Not):
+            visit(t.operand, not pol, subst)
+            return
+        if isinstance(t, ast.Compare) and len(t.ops) == 1 and isinstance(t.comparators[0], ast.Constant) \
+                and t.comparators[0].value is None:
+            name = unparse_subst(t.left, subst)
+            if isinstance(t.left, ast.NamedExpr):
+                name = ast.unparse(t.left.target)
+            if isinstance(t.ops[0], ast.Is):
+                out[name] = pol
+            elif isinstance(t.ops[0], ast.IsNot):
+                out[name] = not pol
+            return
+        if isinstance(t, (ast.Name, ast.Attribute, ast.NamedExpr)):
+            name = ast.unparse(t.target) if isinstance(t, ast.NamedExpr) else unparse_subst(t, subst)
+            out[name] = not pol
+    for test, pol, subst in ev.conds:
+        visit(test, pol, subst)
+    return out
+
+
+def assigned_on_every_path(events: List[Event], target: str) -> bool:
+    """is `target` assigned on every path through the traced function?  (an unconditional assignment, or assignments
+    in both branches of the same test)"""
+    asg = [e for e in events if e.kind == "assign" and e.target == target and e.depth == 0]
+
+    def covered(prefix: Tuple) -> bool:
+        # assignments whose condition list starts with prefix
+        here = [e for e in asg if tuple((id(t), p) for t, p, _ in e.conds)[:len(prefix)] == prefix]
+        if any(len(e.conds) == len(prefix) for e in here):
+            return True
+        tests = {}
+        for e in here:
+            t, p, _ = e.conds[len(prefix)]
+            tests.setdefault(id(t), set()).add(p)
+        for tid, pols in tests.items():
+            if pols == {True, False} and covered(prefix + ((tid, True),)) and covered(prefix + ((tid, False),)):
+                return True
+        return False
+    return covered(())
